@@ -31,9 +31,39 @@ inductive GoType
   | map (e : GoType)                   -- map[string]e
   | ptr (e : GoType)
   | array (n : Nat) (e : GoType)       -- refused by buildReflUnfolder (errUnsupported)
-  | imap (e : GoType)                  -- map[int]e: refused (errMapRequiresStringKey)
-  | struct (name : String) (fields : List (String × String × GoType))   -- Go field name, tag, type
+  | imap (e : GoType)                  -- map[K]e with a key type that is no string kind: refused (errMapRequiresStringKey)
+  | other (kind : String)              -- chan, func, complex64/128, uintptr: refused (errUnsupported)
+  | struct (name : String) (fields : List (String × String × GoType))   -- Go field name, tag, type; name "" = unnamed
+  | named (name : String) (under : GoType)   -- a named non-struct type (`type MyInt int32`)
+  | ref (name : String)                -- the named type `name` of the type table (this is how types refer to
+                                       -- themselves: `type N struct{V int; Next *N}` is `struct "N" [.., ("Next","",ptr (ref "N"))]`)
   deriving Inhabited
+
+/-- named types by name: the menagerie (`SF.Gotype.Menagerie`) or the table a translated type
+brings along -/
+abbrev TypeTable := String → Option GoType
+
+/-- the type with names stripped at the head: what `reflect.Type.Kind()`, `Elem()`, `Field()`
+look at -/
+def GoType.under (tbl : TypeTable) : Nat → GoType → GoType
+  | 0, _ => .other "unresolved"
+  | fuel + 1, t =>
+    match t with
+    | .ref n => match tbl n with
+      | some t' => GoType.under tbl fuel t'
+      | none => .other ("unknown:" ++ n)
+    | .named _ u => GoType.under tbl fuel u
+    | t => t
+
+def resolveFuel : Nat := 32
+def GoType.un (tbl : TypeTable) (t : GoType) : GoType := t.under tbl resolveFuel
+
+/-- the name a type is registered under (`reflect.Type` identity of named types) -/
+def GoType.typeName? : GoType → Option String
+  | .ref n => some n
+  | .named n _ => some n
+  | .struct n _ => if n.isEmpty then none else some n
+  | _ => none
 
 def normKind : NumKind → NumKind
   | .byte => .u8
@@ -58,13 +88,17 @@ def GoType.name : GoType → String
   | .ptr e => "*" ++ e.name
   | .array n e => "[" ++ toString n ++ "]" ++ e.name
   | .imap e => "imap:" ++ e.name
-  | .struct n _ => "@" ++ n
+  | .other k => k
+  | .struct n _ => if n.isEmpty then "struct{…}" else "@" ++ n
+  | .named n _ => "@" ++ n
+  | .ref n => "@" ++ n
 
 /-- full description of a struct type, compared with what `reflect` reports (op `unf-type`) -/
 def GoType.describe : GoType → String
   | .struct n fs =>
     "@" ++ n ++ "{" ++ ";".intercalate (fs.map fun (fn, tag, t) =>
       fn ++ ":" ++ t.name ++ (if tag.isEmpty then "" else "`" ++ tag ++ "`")) ++ "}"
+  | .named n u => "@" ++ n ++ "=" ++ u.name
   | t => t.name
 
 /-! ## values -/
@@ -84,28 +118,44 @@ inductive GoVal
   | ptrNil (et : GoType)
   | ptr (et : GoType) (v : GoVal)                          -- pointer to a (private) v
   | struct (fs : List GoVal)
-  | invalid                                                -- values of refused types
+  | opaque (printed : String)                              -- zero value of a refused kind (chan, func, complex, uintptr)
+  | invalid                                                -- no value (unresolved type)
   deriving Inhabited
 
 mutual
 /-- reflect.Zero -/
-def zero : GoType → GoVal
-  | .bool => .bool false
-  | .string => .str []
-  | .int k => .int k 0
-  | .float32 => .f32 0
-  | .float64 => .f64 0
-  | .ifc => .ifcNil
-  | .slice e => .sliceNil e
-  | .map e => .mapNil e
-  | .ptr e => .ptrNil e
-  | .array _ _ => .invalid
-  | .imap _ => .invalid
-  | .struct _ fs => .struct (zeroFields fs)
-def zeroFields : List (String × String × GoType) → List GoVal
-  | [] => []
-  | (_, _, t) :: r => zero t :: zeroFields r
+def zeroF (tbl : TypeTable) : Nat → GoType → GoVal
+  | 0, _ => .invalid
+  | fuel + 1, t =>
+    match t with
+    | .bool => .bool false
+    | .string => .str []
+    | .int k => .int k 0
+    | .float32 => .f32 0
+    | .float64 => .f64 0
+    | .ifc => .ifcNil
+    | .slice e => .sliceNil e
+    | .map e => .mapNil e
+    | .ptr e => .ptrNil e
+    | .array n e => .slice e (List.replicate n (zeroF tbl fuel e)) []   -- a never-written [n]e: printed like a slice
+    | .imap e => .mapNil e
+    | .other k =>
+      .opaque (if k == "complex64" then "c:0000000000000000"
+               else if k == "complex128" then "c:00000000000000000000000000000000"
+               else if k == "uintptr" then "0" else "nil")
+    | .struct _ fs => .struct (zeroFieldsF tbl fuel fs)
+    | .named _ u => zeroF tbl fuel u
+    | .ref n => match tbl n with
+      | some t' => zeroF tbl fuel t'
+      | none => .invalid
+def zeroFieldsF (tbl : TypeTable) : Nat → List (String × String × GoType) → List GoVal
+  | 0, _ => []
+  | _ + 1, [] => []
+  | fuel + 1, (_, _, t) :: r => zeroF tbl fuel t :: zeroFieldsF tbl fuel r
 end
+
+/-- reflect.Zero (a struct cannot contain itself by value: the fuel is never exhausted) -/
+def zero (tbl : TypeTable) (t : GoType) : GoVal := zeroF tbl 256 t
 
 /-- dynamic type of a value stored in an interface (structs never are, in this model) -/
 def GoVal.dynType : GoVal → GoType
@@ -115,7 +165,8 @@ def GoVal.dynType : GoVal → GoType
   | .sliceNil et => .slice et | .slice et _ _ => .slice et
   | .mapNil et => .map et | .map et _ => .map et
   | .ptrNil et => .ptr et | .ptr et _ => .ptr et
-  | .struct _ => .struct "?" []
+  | .struct _ => .struct "" []
+  | .opaque _ => .other "opaque"
   | .invalid => .array 0 .bool
 
 /-! ### canonical printing
@@ -149,6 +200,7 @@ def GoVal.print : GoVal → String
   | .ptrNil _ => "nil"
   | .ptr _ v => "&" ++ v.print
   | .struct fs => "(" ++ ",".intercalate (printList fs) ++ ")"
+  | .opaque p => p
   | .invalid => "?"
 def printList : List GoVal → List String
   | [] => []
@@ -212,8 +264,7 @@ def takeWhileC (p : Char → Bool) : List Char → List Char × List Char
   | [] => ([], [])
   | c :: r => if p c then let (a, b) := takeWhileC p r; (c :: a, b) else ([], c :: r)
 
-/-- the menagerie: struct types by name (filled in by `SF.Gotype.Menagerie`) -/
-abbrev StructTable := String → Option GoType
+abbrev StructTable := TypeTable
 
 def isNameChar (c : Char) : Bool := c.isAlphanum || c == '_'
 
@@ -230,7 +281,7 @@ def parseType (tbl : StructTable) : Nat → List Char → Option (GoType × List
     | '*' :: r => (parseType tbl fuel r).map fun (t, r') => (.ptr t, r')
     | '@' :: r =>
       let (n, r') := takeWhileC isNameChar r
-      (tbl (String.ofList n)).map fun t => (t, r')
+      (tbl (String.ofList n)).map fun _ => (.ref (String.ofList n), r')
     | _ =>
       let (w, r) := takeWhileC isNameChar cs
       let ws := String.ofList w
@@ -260,7 +311,7 @@ mutual
 def parseVal (tbl : StructTable) : Nat → GoType → List Char → Option (GoVal × List Char)
   | 0, _, _ => none
   | fuel + 1, t, cs =>
-    match t with
+    match t.un tbl with
     | .bool =>
       match cs with
       | 't' :: 'r' :: 'u' :: 'e' :: r => some (.bool true, r)
@@ -317,8 +368,7 @@ def parseVal (tbl : StructTable) : Nat → GoType → List Char → Option (GoVa
       | '(' :: ')' :: r => if fs.isEmpty then some (.struct [], r) else none
       | '(' :: r => (parseFields tbl fuel fs r).map fun (vs, r') => (.struct vs, r')
       | _ => none
-    | .array _ _ => none
-    | .imap _ => none
+    | _ => none
 /-- `v,v,…]` -/
 def parseElems (tbl : StructTable) : Nat → GoType → List Char → Option (List GoVal × List Char)
   | 0, _, _ => none
@@ -352,7 +402,7 @@ end
 
 /-- parse a whole value field; `-` is the zero value -/
 def parseValStr (tbl : StructTable) (t : GoType) (s : String) : Option GoVal :=
-  if s == "-" then some (zero t) else
+  if s == "-" then some (zero tbl t) else
   match parseVal tbl (2 * s.length + 2) t s.toList with
   | some (v, []) => some v
   | _ => none
